@@ -83,6 +83,19 @@ def check_solve(spec, counters, violations, fault_at=None, persistent=False, tig
             for t in S.targets:
                 t.tol = 0.0
             spec = dict(spec, tol=[0.0] * spec["m"])
+        if second == "move-disabled":
+            # between the two solves the user moves the DISABLED knobs (inside their limits); the active ones stay
+            # where the first solve left them: a legal new start point
+            moved = 0
+            for i, v in enumerate(S.vary):
+                if not v.active:
+                    lim = spec["limits"][i]
+                    lo, hi = (lim if lim is not None else (-1.0, 1.0))
+                    cur = S.cont[S.names[i]]
+                    new = lo + (hi - lo) * (0.3 if abs(cur - (lo + (hi - lo) * 0.3)) > 1e-3 else 0.7)
+                    dict.__setitem__(S.cont, S.names[i], float(new))
+                    moved += 1
+            counters["second_solves_after_moving_disabled_knobs"] = counters.get("second_solves_after_moving_disabled_knobs", 0) + (1 if moved else 0)
         S.opt.clear_log()
     if tighten:
         # limit-violation branch: the current point is made to lie outside the (new) limits
@@ -181,6 +194,11 @@ def run_shard(spec_):
             counters["limit_violation_runs"] = counters.get("limit_violation_runs", 0) + 1
         guarded(violations, spec, check_solve, spec, counters, violations, clear=False, fault_at=rng.choice([None, 1, 2, 3]))
         guarded(violations, spec, check_solve, spec, counters, violations, second=rng.choice(["zero-tol", "same"]))
+        if spec["n"] >= 2:
+            spec_d = dict(spec, dis_v=list(spec["dis_v"]))
+            if not any(spec_d["dis_v"]):
+                spec_d["dis_v"][rng.randrange(spec["n"])] = True
+            guarded(violations, spec_d, check_solve, spec_d, counters, violations, second="move-disabled")
         counters["second_solve_runs"] = counters.get("second_solve_runs", 0) + 1
         for _ in range(2):
             guarded(violations, spec, check_solve, spec, counters, violations, fault_at=rng.choice([1, 2, 3, 5]),
